@@ -114,7 +114,7 @@ func recBrief(r *shapes.Rec) string {
 var defaultWeights = map[string]int{
 	"save": 30, "update": 25, "resave": 5, "del": 10, "delall": 1, "sdel": 4, "many": 6, "bulk": 3,
 	"reads": 6, "sweep": 6, "hold": 0, "collect": 0, "reopen": 5, "abandon": 2, "flush": 0, "sleep": 0, "create": 2,
-	"getabsent": 4, "await": 0,
+	"getabsent": 4, "await": 0, "small": 5,
 }
 
 type gen struct {
@@ -152,7 +152,7 @@ func GenOps(r *simrt.Rand, cfg *Config, pools *Pools, prof *Profile) []Op {
 		weights["abandon"] = 0
 	}
 	kinds := []string{"save", "update", "resave", "del", "delall", "sdel", "many", "bulk", "reads", "sweep", "hold", "collect",
-		"reopen", "abandon", "flush", "sleep", "create", "getabsent", "await"}
+		"reopen", "abandon", "flush", "sleep", "create", "getabsent", "await", "small"}
 	total := 0
 	for _, k := range kinds {
 		total += weights[k]
@@ -295,6 +295,8 @@ func (g *gen) genOp(k string) Op {
 	case "flush":
 		lid, _ := g.pickLive()
 		return Op{K: "flush", Mode: []string{"all", "allcommit", "commit", "one", "onecommit"}[r.Intn(5)], Lid: lid}
+	case "small":
+		return Op{K: "small"}
 	case "await":
 		return Op{K: "await", Mode: []string{"threshold", "threshold", "timeout"}[r.Intn(3)]}
 	case "sleep":
